@@ -1139,12 +1139,14 @@ func (c *Checker) checkMethod(
 ) (ast.TypeNode, ast.TypeNode) {
 	prevCatchScopes := c.catchScopes
 	c.catchScopes = nil
+	prevFlags := c.flags
 	prevHasDefer := c.hasDefer()
 	c.setHasDefer(false)
+	prevReturnType := c.returnType
+	prevThrowType := c.throwType
 
 	name := checkedMethod.Name
 	prevMode := c.mode
-	prevFlags := c.flags
 	isClosure := types.IsCallable(methodNamespace)
 
 	if methodNamespace != nil {
@@ -1315,11 +1317,11 @@ func (c *Checker) checkMethod(
 
 	checkedMethod.SetHasDefer(c.hasDefer())
 
-	c.setHasDefer(prevHasDefer)
-	c.returnType = nil
-	c.throwType = nil
+	c.returnType = prevReturnType
+	c.throwType = prevThrowType
 	c.mode = prevMode
 	c.flags = prevFlags
+	c.setHasDefer(prevHasDefer)
 	c.catchScopes = prevCatchScopes
 	return typedReturnTypeNode, typedThrowTypeNode
 }
